@@ -10,6 +10,7 @@ import Mathlib.Data.Rat.Defs
 import Mathlib.Algebra.Order.Field.Rat
 import Mathlib.Data.String.Basic
 import AtsimModel.Props.C03
+import AtsimModel.Lemmas.KernelQ
 /-!
 # C19 — GULP, ADP, funcfl and Excel targets carry the same functions on the same grids
 
@@ -148,4 +149,26 @@ theorem C19_excel_pair_label (p : PairDecl) :
 example : (gulpTable [⟨"A", "B", 1⟩] 2 3).map (fun b => b.rows) = [[(.val 1 0, 0), (.val 1 1, 1), (.val 1 2, 2)]] := by decide +kernel
 example : (funcfl 3 1 7 (1/2) ⟨"Al", 13, 27, 4, "fcc", 1, 2, []⟩ 3).charge.map (·.length) = [5, 2] := by decide +kernel
 
+end Atsim.C19
+
+/-! ## kernel ties: the arithmetic the code uses at these places, regenerated from the source on every run, is the model's -/
+namespace Atsim.C19
+open Atsim.Gen Atsim.E
+set_option linter.unusedTactic false
+set_option linter.unusedSimpArgs false
+theorem C19_kernel_r_iter (cut : Rat) (nr n : Nat) : evalQ (envQ [n, cut, nr]) k_r_iter = rValue cut nr n := by
+  kernel_unfold [k_r_iter, rValue]
+  kernel_close
+theorem C19_kernel_rho_iter (cut : Rat) (nrho n : Nat) : evalQ (envQ [n, cut, nrho]) k_rho_iter = gridPt cut nrho n := by
+  kernel_unfold [k_rho_iter, gridPt]
+  kernel_close
+/-- funcfl: `cutoff = dr*(nr-1)`; the quantity under the square root is `phi(r)*r / 27.2 / 0.529` -/
+theorem C19_kernel_funcfl (dr e sep : Rat) (nr : Nat) (el : El) (nrho : Nat) (drho : Rat) (pf : Fid) :
+    evalQ (envQ [dr, nr]) k_funcfl_cutoff = (funcfl nrho drho nr dr el pf).cutoff ∧
+    evalQ (envQ [evalQ (envQ [e, sep]) k_funcfl_rphi]) k_funcfl_charge = e * sep / (272 / 10) / (529 / 1000) := by
+  constructor
+  · kernel_unfold [k_funcfl_cutoff, funcfl]
+    kernel_close
+  · kernel_unfold [k_funcfl_rphi, k_funcfl_charge]
+    kernel_close
 end Atsim.C19
